@@ -58,12 +58,17 @@ def convert_data_attributes(
     for i, attr in list(enumerate(attrs)):
         name = attr['name']
         if name.startswith('data-'):
-            name = name[5:]
-            if '-' not in name:
-                continue
-            prefix, name = name.split('-', 1)
-            ns = namespaces.get(prefix)
-            if ns is None or (drop_ns is not None and ns not in drop_ns):
+            rest = name[5:]
+            # A prefix may itself contain hyphens, so every hyphen is
+            # tried as the separator (shortest prefix first).
+            for j, c in enumerate(rest):
+                if c != '-':
+                    continue
+                ns = namespaces.get(rest[:j])
+                if ns is not None and (drop_ns is None or ns in drop_ns):
+                    name = rest[j + 1:]
+                    break
+            else:
                 # An ordinary data attribute
                 continue
             # The attribute is replaced by the statement it spells (the
